@@ -101,9 +101,11 @@ class C18Check(Check):
     design_ref = "DESIGN.md section 4, C18"
     n_batches = {"quick": 10, "thorough": 300}
     rule = ("each run = a batch of replay configurations (explainer x storage x imputer incl. TreeStorage/TreeImputer, seed "
-            "pair, stream) executed twice in fresh interpreters: A plain, B perturbed (library activity before seeding, heap "
-            "churn + gc, simulated clock with offset/skew/backward jumps); digests of storage contents and float.hex "
-            "importance values compared after every operation; distinct = distinct digest histories")
+            "pair, stream) executed twice in fresh interpreters: A plain (one buffer dict refilled in place for observations not "
+            "handed to the storage), B perturbed (library activity before seeding, heap churn + gc, every observation a "
+            "distinct retained object, simulated clock with offset/skew/backward jumps, every second batch under another "
+            "PYTHONHASHSEED); digests of storage contents and float.hex importance values, raw and normalised, compared "
+            "after every operation; distinct = distinct digest histories")
     assumptions = ["every second batch runs replay B under another PYTHONHASHSEED (the default interpreter configuration draws "
                    "a fresh string-hash secret per start: entropy that is neither of the two global generators)",
                    "the worker-count perturbation of DESIGN.md is not applicable inside a single replay process"]
